@@ -371,5 +371,40 @@ def r19_6(run):
     run.floor(9)
 
 
-RULES = [("R19.1", r19_1), ("R19.2", r19_2), ("R19.3", r19_3), ("R19.4", r19_4), ("R19.5", r19_5)]
+def r19_7(run):
+    """the assumption "interp1d interpolates linearly through the tabulated points" holds only for the defaults
+    kind='linear', assume_sorted=False: every call site must keep them"""
+    ix = run.index
+    n = 0
+    per = {}
+    for fi in ix.all_functions():
+        for c in calls(fi.node):
+            nm = c.func.id if isinstance(c.func, ast.Name) else (c.func.attr if isinstance(c.func, ast.Attribute) else None)
+            if nm != "interp1d":
+                continue
+            r = ix.resolve_in(fi, nm) if isinstance(c.func, ast.Name) else ("external", "scipy.interpolate.interp1d")
+            if r is None or r[0] != "external" or not r[1].endswith("interp1d"):
+                continue
+            n += 1
+            per[fi.qualname] = per.get(fi.qualname, 0) + 1
+            site = "%s#%d" % (fi.short, per[fi.qualname])
+            run.analysed(fi)
+            kw = {k.arg: k.value for k in c.keywords if k.arg}
+            w = run.where(fi, c)
+            kind = kw.get("kind")
+            run.ob("interp1d|%s|linear" % site, kind is None or (isinstance(kind, ast.Constant) and kind.value in ("linear", 1)) if len(c.args) < 3 else False,
+                   "interp1d is used with its default linear interpolation", w)
+            srt = kw.get("assume_sorted")
+            run.ob("interp1d|%s|sorts-the-table" % site, srt is None or (isinstance(srt, ast.Constant) and srt.value is False),
+                   "interp1d sorts the tabulated x values itself (assume_sorted is left False), so any table order is reproduced", w)
+            be = kw.get("bounds_error")
+            fv = kw.get("fill_value")
+            run.ob("interp1d|%s|no-silent-fill" % site,
+                   be is None and (fv is None or (isinstance(fv, ast.Constant) and fv.value == "extrapolate") or isinstance(fv, ast.Name)),
+                   "outside the table interp1d raises or extrapolates linearly; it never fills in a constant silently", w)
+    run.ob("interp1d|call-sites-found", n >= 3, "interp1d call sites in the package: %d" % n, "pandapipes")
+    run.floor(8)
+
+
+RULES = [("R19.7", r19_7), ("R19.1", r19_1), ("R19.2", r19_2), ("R19.3", r19_3), ("R19.4", r19_4), ("R19.5", r19_5)]
 THOROUGH = [("R19.6", r19_6)]
